@@ -173,6 +173,9 @@ func init() {
 	for _, id := range []string{"C01", "C03", "C04", "C05", "C06", "C09"} {
 		props[id].Harnesses = append(props[id].Harnesses, retrieve...)
 	}
+	for _, id := range []string{"C01", "C06", "C08"} {
+		props[id].Harnesses = append(props[id].Harnesses, HarnessSpec{Name: "VH_C01_summary_first", Replay: "native", Unwind: 400})
+	}
 	props["C12"].Harnesses = append(props["C12"].Harnesses, HarnessSpec{Name: "VH_C12_routing", Replay: "native", Unwind: 400})
 	props["C09"].Harnesses = append(props["C09"].Harnesses, HarnessSpec{Name: "VH_C09_bare_config", Replay: "native", Unwind: 400, Panics: true},
 		HarnessSpec{Name: "VH_C03_validate", Replay: "native", Panics: true},
